@@ -408,6 +408,36 @@ func C20Case(r *Runner, base string, tape *sim.Tape) *Outcome {
 			}
 		}
 	}
+	// Third enumeration, only for a tree that installs a signal handler outside --watch (the
+	// pinned tree does not): "killed" also means the catchable kind. SIGTERM arrives before
+	// every operation that follows a mutating one; the process is not stopped but runs its
+	// handler against whatever the workers have in flight, and the disk it leaves behind is
+	// judged by the same disjunction.
+	if ff.Res.Fired["signal-handler-registered"] > 0 {
+		out.stat("scenarios_with_signal_handler_enumerated", 1)
+		for k := 1; k < K; k++ {
+			if !Mutating(ff.Trace[k-1].Kind) {
+				continue
+			}
+			if err := fresh(); err != nil {
+				out.Infra = "materialise: " + err.Error()
+				return out
+			}
+			p := plan()
+			p.SoftKill, p.SoftKillAt = true, k
+			if _, err := r.Run(work, c.Inv, p); err != nil {
+				out.Infra = err.Error()
+				return out
+			}
+			images++
+			out.stat("fault_sigterm_with_handler", 1)
+			if v := judgeCrashImage(c, ex, root, "sigterm,after-"+ff.Trace[k-1].Kind); v != nil {
+				v.Detail += fmt.Sprintf(" [SIGTERM delivered to the program's handler before operation %d of %d; last operations: %s; args=%v; tree=%s]", k, K, lastOps(ff.Trace, k, 6), c.Inv.Args(), DescribeTree(c.Tree))
+				out.V = v
+				return out
+			}
+		}
+	}
 	out.Evals = images + 1
 	out.Nontrivial = images
 	out.Key = uint64(ff.Res.SchedHash)
